@@ -65,7 +65,8 @@ PROPS = {
         "assumptions": TRUST,
     },
     "C11": {
-        "engines": ["E1 Kani/CBMC"],
+        "engines": ["E1 Kani/CBMC", "E2 mirsym+z3/cvc5"],
+        "e2": True,
         "functions": F_UNIT + F_NUM + [("rsass::value::UnitSet::is_compatible", "value/unitset.rs", r"pub fn is_compatible")],
         "bounds": {
             "quick": "Unit::scale_to: all 31x31 ordered unit pairs symbolically (28 named units, unitless, 2 unknown), ratios within 1e-12 "
@@ -73,15 +74,16 @@ PROPS = {
                      "frequency and resolution groups (lengths/angles: thorough), for unitless-vs-unit over all 28 named units, and for "
                      "10 representative inconvertible pairs; every ordered in-group pair at magnitude 1 (concrete inputs)",
         },
-        "outside": "the three-way unit selection inside Operator::eval for + and - (consumes css::Value: out of CBMC's reach) and the "
-                   "exponent bookkeeping of UnitSet Mul/Div/simplify, math.div, compound units; an oracle that multiplies symbolic "
+        "outside": "the exponent bookkeeping of UnitSet Mul/Div/simplify (multiplication/division), math.div, compound units; "
+                   "(the three-way unit selection of + and - in Operator::eval is decided structurally by E2 k_plus_minus_units); an oracle that multiplies symbolic "
                    "magnitudes (multiplier equivalence does not finish in SAT: the ratio itself is decided on the table, its use on "
                    "concrete magnitudes)",
         "stubs": KANI_STUBS,
         "assumptions": TRUST + ["oracle: CSS Values and Units 4 ratio table in /verif/kani/src/oracle.rs"],
     },
     "C12": {
-        "engines": ["E1 Kani/CBMC"],
+        "engines": ["E1 Kani/CBMC", "E2 mirsym+z3/cvc5"],
+        "e2": True,
         "functions": F_NUM + [
             ("rsass::value::Rgba::cmp", "value/colors/rgba.rs", r"impl Ord for Rgba"),
             ("rsass::value::colors::rgba::cmp_chan", "value/colors/rgba.rs", r"^fn cmp_chan\("),
